@@ -11,10 +11,10 @@ use squitterator::{Plane, get_message};
 
 pub static PROP: Prop = Prop { id: "C17", level, run, replay, gate, both_profiles: false, serial: false };
 
-fn level(_t: Tier) -> Level {
+fn level(t: Tier) -> Level {
     Level {
         category: "exploration",
-        rule: "every address 0..0xFFFFFF through the public constructor Plane::from_message (the one the table uses), plus every block boundary +-1 and every 4099th address through the reader seam (DF11 creating the row); an outcome is the (address-block, code) pair; distinct_nontrivial counts distinct codes/blocks observed",
+        rule: if t.thorough() { "every address 0..0xFFFFFF through the public constructor Plane::from_message (the one the table uses) AND every address 1..0xFFFFFF through the reader seam (a DF11 line creating the row, 512 reader runs of 32768 rows); an outcome is the (address-block, code) pair; distinct_nontrivial counts distinct codes/blocks observed" } else { "every address 0..0xFFFFFF through the public constructor Plane::from_message (the one the table uses), plus every block boundary +-1 and every 4099th address through the reader seam (DF11 creating the row); an outcome is the (address-block, code) pair; distinct_nontrivial counts distinct codes/blocks observed" },
         assumptions: vec![
             "oracle: the 189 disjoint aligned blocks of DESIGN App. A, transcribed independently of country_icao_mask.rs".into(),
             "row.reg is what the RG column prints (C14 checks the rendering)".into(),
@@ -33,13 +33,35 @@ fn gate(p: &Partial, t: Tier) -> Result<(), String> {
     Ok(())
 }
 
+/// look for one predecessor `h` such that resolving h and then `a` on a fresh thread gives `wrong`
+fn find_predecessor(history: &[u32], a: u32, wrong: Option<&'static str>, f: fn(u32) -> Option<&'static str>) -> Option<u32> {
+    for &h in history.iter().rev() {
+        let r = std::thread::Builder::new()
+            .name("sqv-fresh".into())
+            .spawn(move || {
+                let _ = f(h);
+                f(a)
+            })
+            .ok()
+            .and_then(|t| t.join().ok())
+            .flatten();
+        if r == wrong {
+            return Some(h);
+        }
+    }
+    None
+}
+
 fn ctor_reg(addr: u32) -> Option<&'static str> {
     let f = frames::df11(5, addr, 0);
     let msg = get_message(&f.hex())?;
     Some(Plane::from_message(&msg, 11, addr, false).reg)
 }
 
-fn seam_addresses(lk: &Lookup) -> Vec<u32> {
+fn seam_addresses(lk: &Lookup, thorough: bool) -> Vec<u32> {
+    if thorough {
+        return (1..(1u32 << 24)).collect();
+    }
     let mut v: Vec<u32> = (1..(1u32 << 24)).step_by(4099).collect();
     for b in &lk.blocks {
         for a in [b.lo.wrapping_sub(1), b.lo, b.lo + 1, b.hi - 1, b.hi, b.hi + 1] {
@@ -57,6 +79,7 @@ fn run(ctx: &mut Ctx) {
     let lk = Lookup::new();
     // (a) complete domain through the constructor; worker k owns addresses == k mod n
     let mut a = ctx.part as u32;
+    let mut history: std::collections::VecDeque<u32> = std::collections::VecDeque::new();
     while a < (1 << 24) {
         let want = if a == 0 { lk.code(a) } else { lk.code(a) };
         let got = ctor_reg(a);
@@ -72,12 +95,19 @@ fn run(ctx: &mut Ctx) {
             }
         }
         if got != Some(want) {
+            // is the wrong answer a function of the address alone, or of what was resolved before?
+            let alone = std::thread::Builder::new().name("sqv-fresh".into()).spawn(move || ctor_reg(a)).ok().and_then(|t| t.join().ok()).flatten();
+            let prev = if alone == got { None } else { find_predecessor(history.make_contiguous(), a, got, ctor_reg) };
             ctx.violation(
-                "C17/ctor",
+                if alone == got { "C17/ctor" } else { "C17/ctor-history" },
                 &format!("addr={a:06X}"),
-                || format!("address {a:06X}: expected {want}, Plane::from_message gives {got:?}"),
-                || json!({"kind": "ctor", "addr": a}),
+                || format!("address {a:06X}: expected {want}, Plane::from_message gives {got:?}{}", match prev { Some(h) => format!(" when {h:06X} was resolved just before (alone it gives {alone:?})"), None if alone != got => format!(" depending on earlier addresses (alone it gives {alone:?})"), None => String::new() }),
+                || json!({"kind": "ctor", "addr": a, "prev": prev}),
             );
+        }
+        history.push_back(a);
+        if history.len() > 300 {
+            history.pop_front();
         }
         if a % 1_000_003 == 0 {
             ctx.sample(|| json!({"seam": "ctor", "addr": format!("{a:06X}"), "expected": want, "observed": got}));
@@ -86,7 +116,7 @@ fn run(ctx: &mut Ctx) {
     }
     // (b) reader seam
     let cfg = Cfg::new(&[]);
-    let addrs: Vec<u32> = seam_addresses(&lk).into_iter().enumerate().filter(|(i, _)| ctx.mine(*i as u64)).map(|(_, a)| a).collect();
+    let addrs: Vec<u32> = seam_addresses(&lk, ctx.tier.thorough()).into_iter().enumerate().filter(|(i, _)| ctx.mine(*i as u64)).map(|(_, a)| a).collect();
     for chunk in addrs.chunks(CHUNK) {
         let vecs: Vec<Vector> = chunk.iter().map(|&a| Vector { addr: a, lines: vec![frames::df11(5, a, 0).hex().into_bytes()] }).collect();
         let obs = run_vectors(&cfg, &vecs);
@@ -99,17 +129,29 @@ fn run(ctx: &mut Ctx) {
                 other => format!("{other:?}"),
             };
             if got != want {
+                let alone = run_vectors(&cfg, &[Vector { addr: *a, lines: vec![frames::df11(5, *a, 0).hex().into_bytes()] }])[0].row().map(|s| s.reg.clone());
+                let mut prev = None;
+                if alone.as_deref() != Some(got.as_str()) {
+                    let idx = chunk.iter().position(|x| x == a).unwrap_or(0);
+                    for h in chunk[idx.saturating_sub(300)..idx].iter().rev() {
+                        let both = run_vectors(&cfg, &[Vector { addr: *h, lines: vec![frames::df11(5, *h, 0).hex().into_bytes()] }, Vector { addr: *a, lines: vec![frames::df11(5, *a, 0).hex().into_bytes()] }]);
+                        if both[1].row().map(|s| s.reg.as_str()) == Some(got.as_str()) {
+                            prev = Some(*h);
+                            break;
+                        }
+                    }
+                }
                 ctx.violation(
-                    "C17/reader",
+                    if prev.is_some() { "C17/reader-history" } else { "C17/reader" },
                     &format!("addr={a:06X}"),
-                    || format!("address {a:06X}: expected {want}, row created by DF11 shows {got}"),
-                    || json!({"kind": "reader", "addr": a}),
+                    || format!("address {a:06X}: expected {want}, row created by DF11 shows {got}{}", prev.map(|h| format!(" when the line before it is the DF11 of {h:06X}")).unwrap_or_default()),
+                    || json!({"kind": "reader", "addr": a, "prev": prev}),
                 );
             }
         }
     }
     ctx.sample(|| json!({"seam": "reader", "line": frames::df11(5, 0x4CA123, 0).hex(), "expected": lk.code(0x4CA123)}));
-    ctx.bound("addresses", "all 16777216 (constructor seam); block boundaries +-1 and stride 4099 (reader seam)");
+    ctx.bound("addresses", if ctx.tier.thorough() { "all 16777216 (constructor seam) and all 16777215 non-zero (reader seam)" } else { "all 16777216 (constructor seam); block boundaries +-1 and stride 4099 (reader seam)" });
     ctx.out.exhaustive = true;
 }
 
@@ -119,6 +161,9 @@ fn replay(ctx: &mut Ctx, case: &Value) {
     let want = lk.code(a);
     match case.get("kind").and_then(|x| x.as_str()) {
         Some("ctor") => {
+            if let Some(h) = case.get("prev").and_then(|x| x.as_u64()) {
+                crate::run::say(&format!("resolved just before: {:06X} -> {:?}", h, ctor_reg(h as u32)));
+            }
             let got = ctor_reg(a);
             crate::run::say(&format!("address {a:06X}: expected {want}, observed {got:?}"));
             if got != Some(want) {
@@ -127,8 +172,13 @@ fn replay(ctx: &mut Ctx, case: &Value) {
         }
         Some("reader") => {
             let cfg = Cfg::new(&[]);
-            let obs = run_vectors(&cfg, &[Vector { addr: a, lines: vec![frames::df11(5, a, 0).hex().into_bytes()] }]);
-            let got = obs[0].row().map(|s| s.reg.clone());
+            let mut vs = vec![];
+            if let Some(h) = case.get("prev").and_then(|x| x.as_u64()) {
+                vs.push(Vector { addr: h as u32, lines: vec![frames::df11(5, h as u32, 0).hex().into_bytes()] });
+            }
+            vs.push(Vector { addr: a, lines: vec![frames::df11(5, a, 0).hex().into_bytes()] });
+            let obs = run_vectors(&cfg, &vs);
+            let got = obs.last().unwrap().row().map(|s| s.reg.clone());
             crate::run::say(&format!("line {}: expected {want}, observed {got:?}", frames::df11(5, a, 0).hex()));
             if got.as_deref() != Some(want) {
                 ctx.violation("C17/reader", &format!("addr={a:06X}"), || format!("expected {want}, got {got:?}"), || case.clone());
